@@ -270,6 +270,11 @@ fn crossings() -> Vec<Case> {
     out
 }
 
+pub fn cases_for_c01(thorough: bool) -> Vec<Case> {
+    let graphs = (0..(1usize << 12)).filter(|b| (b >> 9) != 0 && (thorough || b % 16 == 5)).map(graph_case);
+    placements().into_iter().chain(crossings()).chain(graphs).collect()
+}
+
 pub fn run(ctx: &Ctx) -> Report {
     let mut report = Report::new();
     let active = active_findings(ctx, &mut report);
